@@ -781,6 +781,27 @@ fn answer_lib(line: &str) -> String {
             }
             join(&out, " ")
         }
+        ["cmp_hist", c1, j1, rest @ ..] => {
+            let cut = p!(rest.iter().position(|t| *t == "/"));
+            let ops1 = &rest[..cut];
+            let [c2, j2, ops2 @ ..] = &rest[cut + 1..] else { return "BADREQ".into() };
+            let a = cal!(c1);
+            let b = cal!(c2);
+            let j1: i32 = p!(j1.parse().ok());
+            let j2: i32 = p!(j2.parse().ok());
+            let fin = |mut d: Date, ops: &[&str]| {
+                for op in ops {
+                    if let Ok(x) = hist_step(&d, op) {
+                        d = x;
+                    }
+                }
+                d
+            };
+            let x = fin(a.at_jdn(j1), ops1);
+            let y = fin(b.at_jdn(j2), ops2);
+            assert_eq!(x.partial_cmp(&y), Some(x.cmp(&y)));
+            format!("{} {} {} {}", show_ord(x.cmp(&y)), b01(x == y), b01(hash_of(&x) == hash_of(&y)), b01(show_date(&x) == show_date(&y)))
+        }
         ["chrono_from", y, m, d] => {
             let y: i32 = p!(y.parse().ok());
             let m: u32 = p!(m.parse().ok());
